@@ -42,6 +42,7 @@ from collections import namedtuple
 from collections.abc import Iterable
 from enum import Enum
 
+from psyclone.core import AccessType
 from psyclone.psyir.nodes.call import Call
 from psyclone.psyir.nodes.datanode import DataNode
 from psyclone.psyir.nodes.literal import Literal
@@ -928,9 +929,43 @@ class IntrinsicCall(Call):
                         index.reference_accesses(var_accesses)
             for child in self.arguments[1:]:
                 child.reference_accesses(var_accesses)
+            return
+
+        intr = IntrinsicCall.Intrinsic
+        # Identify any arguments that are defined by this intrinsic.
+        access = AccessType.READWRITE
+        if self.intrinsic in (intr.ALLOCATE, intr.DEALLOCATE):
+            # The (de)allocated objects and the STAT and ERRMSG variables
+            # are written. MOLD and SOURCE are only read.
+            access = AccessType.WRITE
+            defined = [arg for name, arg in
+                       zip(self.argument_names, self.arguments)
+                       if not (name and name.lower() in ("mold", "source"))]
+        elif self.intrinsic is intr.MVBITS:
+            # A pure subroutine but its fourth argument ('TO') is updated.
+            defined = self.arguments[3:4]
+        elif self.intrinsic in (intr.CPU_TIME, intr.DATE_AND_TIME,
+                                intr.MOVE_ALLOC, intr.RANDOM_NUMBER,
+                                intr.RANDOM_SEED, intr.SYSTEM_CLOCK):
+            # This is an intrinsic subroutine that defines its arguments.
+            # As in Call.reference_accesses(), we conservatively assume
+            # that every argument that is passed by reference is both
+            # read and written.
+            defined = self.arguments
         else:
-            for child in self.arguments:
-                child.reference_accesses(var_accesses)
+            defined = []
+
+        for arg in self.arguments:
+            if (isinstance(arg, Reference) and
+                    any(arg is item for item in defined)):
+                sig, indices_list = arg.get_signature_and_indices()
+                var_accesses.add_access(sig, access, arg)
+                # Any symbols referenced in any index expressions are READ.
+                for indices in indices_list:
+                    for index in indices:
+                        index.reference_accesses(var_accesses)
+            else:
+                arg.reference_accesses(var_accesses)
 
     # TODO #2102: Maybe the three properties below can be removed if intrinsic
     # is a symbol, as they would act as the super() implementation.
